@@ -66,6 +66,9 @@ END { print NR }`,
 	"range":              `$1 == 2, $1 == 5 { tick(NR) } END { print NR }`,
 	"end":                `END { for (i = 1; i <= N; i++) { tick(i); print "s" i } }`,
 	"outputs":            `BEGIN { for (i = 1; i <= N; i++) { print "s" i; print "f" i > "out1"; print "c" i | cmd; tick(i) } }`,
+	// cheap I/O builtins in a tight loop (no child, no file): D filler instructions per iteration
+	// vary how the iteration's instruction count lines up with whatever poll interval is in use
+	"io-builtins": `BEGIN { for (i = 1; i <= N; i++) { tick(i); fflush(); close("nofile"); r = (getline line < "missing"); for (j = 0; j < D; j++) x++ } print i }`,
 	"getline-file":       `BEGIN { while ((getline line < "in1") > 0) { n++; tick(n) } for (i = 0; i < N; i++) { tick(n + i) } print n }`,
 	"system-loop":        `BEGIN { for (i = 1; i <= N; i++) { r = system(cmdexit); print "s" i; tick(i) } }`,
 	"getline-cmd":        `BEGIN { while ((cmdlines | getline line) > 0) { n++; print "s" n; tick(n) } close(cmdlines); for (i = 0; i < 100000; i++) x++ }`,
@@ -74,6 +77,10 @@ END { print NR }`,
 	"blocked-system":     `BEGIN { print "s1"; tick(1); r = system(cmdhang); tick(2); for (i = 0; i < 100000; i++) x++ }`,
 	"blocked-close":      `BEGIN { print "s1"; print "c1" | cmdhang; tick(1); close(cmdhang); tick(2); for (i = 0; i < 100000; i++) x++ }`,
 	"blocked-getline":    `BEGIN { print "s1"; tick(1); cmdhang | getline x; tick(2); for (i = 0; i < 100000; i++) x++ }`,
+	// blocked in a write: the command never reads, 300 000 bytes do not fit the pipe; the
+	// cancellation kills the command, the write fails with EPIPE - the call must still return the
+	// context's error
+	"blocked-bigprint": `BEGIN { print "s1"; big = sprintf("%300000s", "x"); tick(1); printf "%s", big | cmdhang; tick(2); for (i = 0; i < 100000; i++) x++ }`,
 	// the command spawns a grandchild that keeps the pipe open, then both hang: killing the
 	// command does not end the read (WaitDelay must)
 	"blocked-getline-grandchild": `BEGIN { print "s1"; print "f1" > "out1"; tick(1); cmdspawn | getline x; tick(2); for (i = 0; i < 100000; i++) x++ }`,
@@ -81,8 +88,8 @@ END { print NR }`,
 	"system-sinkfail": `BEGIN { r = system(cmdemit); printf "r=%s\n", r > "out1"; close("out1"); tick(1); print "after" }`,
 }
 
-var c15Archs = []string{"print-all", "print-all-end", "while", "for", "recursion", "forin", "forin-nobody", "forin-nested", "records", "patterns", "pattern-only", "range", "end", "outputs", "getline-file"}
-var c15ChildArchs = []string{"stdin-share", "system-loop", "getline-cmd", "big-to-cmd", "blocked-system", "blocked-close", "blocked-getline", "blocked-grandchild", "blocked-getline-grandchild", "system-sinkfail"}
+var c15Archs = []string{"print-all", "print-all-end", "while", "for", "recursion", "forin", "forin-nobody", "forin-nested", "records", "patterns", "pattern-only", "range", "end", "outputs", "getline-file", "io-builtins"}
+var c15ChildArchs = []string{"stdin-share", "system-loop", "getline-cmd", "big-to-cmd", "blocked-system", "blocked-close", "blocked-getline", "blocked-bigprint", "blocked-grandchild", "blocked-getline-grandchild", "system-sinkfail"}
 
 // c15Ctx is a context the simulator can close at an instant of its choosing.
 type c15Ctx interface {
@@ -228,6 +235,8 @@ func (c15Engine) Gen(r *core.Rand, tier string, i int) any {
 		sc.N = r.Range(2, 60)
 	case "outputs":
 		sc.N = r.Range(1, 200)
+	case "io-builtins":
+		sc.Depth = r.Range(0, 40)
 	}
 	switch r.Intn(20) {
 	case 0, 1:
@@ -627,7 +636,7 @@ func (e c15Engine) Run(scAny any, keep bool) core.Outcome {
 				return &core.Failure{Oracle: "delivered", Detail: fmt.Sprintf("%s: %d prints had completed when the context was closed, stdout holds %d tokens (-1 = malformed): %q", d, k, ns, clip(res.Stdout, 200))}
 			}
 			out.Probe("delivery_checked_after_cancel", 1)
-		case "blocked-system", "blocked-close", "blocked-getline", "blocked-getline-grandchild", "blocked-grandchild":
+		case "blocked-system", "blocked-close", "blocked-getline", "blocked-bigprint", "blocked-getline-grandchild", "blocked-grandchild":
 			if !strings.HasPrefix(res.Stdout, "s1\n") {
 				return &core.Failure{Oracle: "delivered", Detail: fmt.Sprintf("%s: 's1' was printed before the wait but stdout is %q", d, res.Stdout)}
 			}
